@@ -12,10 +12,21 @@
 (* Design = "grader_bookkeeping": the repaired code -- only exec() of the  *)
 (*   student program runs in T; every field of the sandbox is written by M.*)
 (* Kind of student program: busy | printer | swallower | blocked | finisher*)
+(*   | catcher (a retry loop that catches Exception, not BaseException).   *)
+(* Inject = "base": terminate() raises SystemExit (a BaseException) in T;  *)
+(*   "exception" models an injected class derived from Exception, which a  *)
+(*   catcher swallows.                                                     *)
+(* Handback: how T hands the exception its code died from back to M --     *)
+(*   "per_run": a cell owned by that execution (the code: a list local to  *)
+(*   _run_in_thread); "shared_field": one sandbox field reset at the start *)
+(*   of every threaded execution.                                          *)
+(* NextRun = "plain": the later execution is unthreaded; "threaded": it is *)
+(*   threaded too, and (Kind = blocked) its program releases the lock the  *)
+(*   abandoned thread is blocked on, so that thread dies DURING it.        *)
 (***************************************************************************)
 EXTENDS Naturals, Sequences, TLC, Json
 
-CONSTANTS Design, Kind, MaxSteps
+CONSTANTS Design, Kind, MaxSteps, Inject, Handback, NextRun
 
 (* --algorithm race
 variables
@@ -28,12 +39,17 @@ variables
   exc = "none", fbs = <<>>,
   pending = FALSE,     \* an asynchronous SystemExit has been requested for T
   tState = "new",      \* new | running | dead | blocked | immortal
-  tOutcome = "none",   \* what T hands back to M (grader_bookkeeping)
+  cur = "r1",          \* the execution the sandbox is performing (r1: the one that times out, r2: the later one)
+  xcell = [r \in {"r1", "r2"} |-> "none"],   \* exception handed back by the student thread of each execution
+  released = FALSE,    \* the lock a blocked student thread waits for has been released
+  nOutcome = "none", excNext = "unset",
   mDone = FALSE, crashed = {}, excAtReturn = "unset", timedOut = FALSE,
   sched = <<>>;        \* sequence of hook-level points passed, for schedule forcing
 
 define
   Quiet == mDone /\ tState \in {"dead", "blocked", "immortal"}
+  Swallows == Kind = "swallower" \/ (Kind = "catcher" /\ Inject = "exception")
+  MySlot == IF Handback = "shared_field" THEN cur ELSE "r1"     \* T is the student thread of execution r1
 end define;
 
 macro write(ch) begin
@@ -55,24 +71,25 @@ t_mock2:     patches := <<pOut>> \o patches; pOut := "b1"; tState := "running";
           end if;
 t_loop:   while TRUE do
             if Kind = "blocked" then goto t_blocked
-            elsif pending /\ Kind # "swallower" then pending := FALSE; goto t_exit
-            elsif pending /\ Kind = "swallower" then pending := FALSE
+            elsif pending /\ ~Swallows then pending := FALSE; goto t_exit
+            elsif pending /\ Swallows then pending := FALSE
             elsif steps >= MaxSteps then
                if Kind = "finisher" then goto t_done
-               elsif Kind = "swallower" then goto t_immortal
+               elsif Swallows then goto t_immortal
                else await pending end if;
             else
                steps := steps + 1;
-               if Kind \in {"printer", "swallower", "finisher"} then write("s"); hook("T:step") end if;
+               if Kind \in {"printer", "swallower", "finisher", "catcher"} then write("s"); hook("T:step") end if;
             end if;
           end while;
 t_blocked: tState := "blocked";
-t_b2:     await FALSE;
+t_b2:     await released /\ pending;      \* a later execution released the lock: the pending exit surfaces now
+          pending := FALSE; tState := "running"; goto t_exit;
 t_immortal: tState := "immortal";
 t_i2:     await FALSE;
 \* --- the asynchronous SystemExit surfaced in T
 t_exit:   hook("T:exit");
-          if Design = "grader_bookkeeping" then tOutcome := "sysexit"; goto t_dead end if;
+          if Design = "grader_bookkeeping" then xcell[MySlot] := "sysexit"; goto t_dead end if;
 \* student_bookkeeping: `except SystemExit` handler of _execute, access by access
 th_check: if patches = <<>> then goto th_popOut end if;
 th_pop:   if patches = <<>> then crashed := crashed \cup {"T:IndexError"}; goto t_dead
@@ -84,7 +101,7 @@ th_excW:  exc := "sysexit";
 th_build: fbs := Append(fbs, exc);      \* runtime_error_function(exception=self.exception ...): re-reads the field
           goto t_dead;
 \* --- student code finished by itself
-t_done:   if Design = "grader_bookkeeping" then tOutcome := "normal"; goto t_dead end if;
+t_done:   if Design = "grader_bookkeeping" then goto t_dead end if;
 te_check: if pending then goto t_dead elsif patches = <<>> then goto te_popOut end if;
 te_pop:   if pending then goto t_dead
           elsif patches = <<>> then crashed := crashed \cup {"T:IndexError"}; goto t_dead
@@ -131,31 +148,39 @@ mf_popOut:   raw := Append(raw, <<Head(stdouts), buf[Head(stdouts)]>>); stdouts 
           end if;
 m_ret:    excAtReturn := exc; hook("M:returned");
 \* --- a later, unthreaded run("print('n')") on the same sandbox
-n_begin:  exc := "none";
+n_begin:  exc := "none"; cur := "r2";
+          if NextRun = "threaded" /\ Handback = "shared_field" then xcell["r2"] := "none" end if;
 n_mock1:  stdouts := <<"b2">> \o stdouts;
 n_mock2:  patches := <<pOut>> \o patches; pOut := "b2";
 n_print:  write("n"); hook("M:nextprint");
+          if NextRun = "threaded" /\ Kind = "blocked" then released := TRUE end if;
+\* threaded later execution: after its own student thread was joined, M looks at what was handed back
+n_join:   if NextRun = "threaded" /\ xcell["r2"] # "none" then nOutcome := xcell["r2"] end if;
 n_check:  if patches = <<>> then goto n_popOut end if;
 n_pop:    if patches = <<>> then crashed := crashed \cup {"N:IndexError"}; goto n_done
           else mtmp := Head(patches); patches := Tail(patches) end if;
 n_stop:   pOut := mtmp;
 n_popOut: if stdouts = <<>> then crashed := crashed \cup {"N:IndexError"}
           else raw := Append(raw, <<Head(stdouts), buf[Head(stdouts)]>>); stdouts := Tail(stdouts) end if;
-n_done:   mDone := TRUE;
+n_record: if nOutcome # "none" then exc := nOutcome; fbs := Append(fbs, nOutcome) end if;
+n_done:   excNext := exc; mDone := TRUE;
 end process;
 end algorithm; *)
 \* BEGIN TRANSLATION
 VARIABLES pc, patches, stdouts, pOut, buf, realOut, raw, exc, fbs, pending, 
-          tState, tOutcome, mDone, crashed, excAtReturn, timedOut, sched
+          tState, cur, xcell, released, nOutcome, excNext, mDone, crashed, 
+          excAtReturn, timedOut, sched
 
 (* define statement *)
 Quiet == mDone /\ tState \in {"dead", "blocked", "immortal"}
+Swallows == Kind = "swallower" \/ (Kind = "catcher" /\ Inject = "exception")
+MySlot == IF Handback = "shared_field" THEN cur ELSE "r1"
 
 VARIABLES steps, tmp, mtmp
 
 vars == << pc, patches, stdouts, pOut, buf, realOut, raw, exc, fbs, pending, 
-           tState, tOutcome, mDone, crashed, excAtReturn, timedOut, sched, 
-           steps, tmp, mtmp >>
+           tState, cur, xcell, released, nOutcome, excNext, mDone, crashed, 
+           excAtReturn, timedOut, sched, steps, tmp, mtmp >>
 
 ProcSet == {"T"} \cup {"M"}
 
@@ -170,7 +195,11 @@ Init == (* Global variables *)
         /\ fbs = <<>>
         /\ pending = FALSE
         /\ tState = "new"
-        /\ tOutcome = "none"
+        /\ cur = "r1"
+        /\ xcell = [r \in {"r1", "r2"} |-> "none"]
+        /\ released = FALSE
+        /\ nOutcome = "none"
+        /\ excNext = "unset"
         /\ mDone = FALSE
         /\ crashed = {}
         /\ excAtReturn = "unset"
@@ -188,8 +217,9 @@ t_wait == /\ pc["T"] = "t_wait"
           /\ tState = "running" \/ Design = "student_bookkeeping"
           /\ pc' = [pc EXCEPT !["T"] = "t_begin"]
           /\ UNCHANGED << patches, stdouts, pOut, buf, realOut, raw, exc, fbs, 
-                          pending, tState, tOutcome, mDone, crashed, 
-                          excAtReturn, timedOut, sched, steps, tmp, mtmp >>
+                          pending, tState, cur, xcell, released, nOutcome, 
+                          excNext, mDone, crashed, excAtReturn, timedOut, 
+                          sched, steps, tmp, mtmp >>
 
 t_begin == /\ pc["T"] = "t_begin"
            /\ IF Design = "student_bookkeeping"
@@ -198,34 +228,36 @@ t_begin == /\ pc["T"] = "t_begin"
                  ELSE /\ pc' = [pc EXCEPT !["T"] = "t_loop"]
                       /\ exc' = exc
            /\ UNCHANGED << patches, stdouts, pOut, buf, realOut, raw, fbs, 
-                           pending, tState, tOutcome, mDone, crashed, 
-                           excAtReturn, timedOut, sched, steps, tmp, mtmp >>
+                           pending, tState, cur, xcell, released, nOutcome, 
+                           excNext, mDone, crashed, excAtReturn, timedOut, 
+                           sched, steps, tmp, mtmp >>
 
 t_mock1 == /\ pc["T"] = "t_mock1"
            /\ stdouts' = <<"b1">> \o stdouts
            /\ pc' = [pc EXCEPT !["T"] = "t_mock2"]
            /\ UNCHANGED << patches, pOut, buf, realOut, raw, exc, fbs, pending, 
-                           tState, tOutcome, mDone, crashed, excAtReturn, 
-                           timedOut, sched, steps, tmp, mtmp >>
+                           tState, cur, xcell, released, nOutcome, excNext, 
+                           mDone, crashed, excAtReturn, timedOut, sched, steps, 
+                           tmp, mtmp >>
 
 t_mock2 == /\ pc["T"] = "t_mock2"
            /\ patches' = <<pOut>> \o patches
            /\ pOut' = "b1"
            /\ tState' = "running"
            /\ pc' = [pc EXCEPT !["T"] = "t_loop"]
-           /\ UNCHANGED << stdouts, buf, realOut, raw, exc, fbs, pending, 
-                           tOutcome, mDone, crashed, excAtReturn, timedOut, 
-                           sched, steps, tmp, mtmp >>
+           /\ UNCHANGED << stdouts, buf, realOut, raw, exc, fbs, pending, cur, 
+                           xcell, released, nOutcome, excNext, mDone, crashed, 
+                           excAtReturn, timedOut, sched, steps, tmp, mtmp >>
 
 t_loop == /\ pc["T"] = "t_loop"
           /\ IF Kind = "blocked"
                 THEN /\ pc' = [pc EXCEPT !["T"] = "t_blocked"]
                      /\ UNCHANGED << buf, realOut, pending, sched, steps >>
-                ELSE /\ IF pending /\ Kind # "swallower"
+                ELSE /\ IF pending /\ ~Swallows
                            THEN /\ pending' = FALSE
                                 /\ pc' = [pc EXCEPT !["T"] = "t_exit"]
                                 /\ UNCHANGED << buf, realOut, sched, steps >>
-                           ELSE /\ IF pending /\ Kind = "swallower"
+                           ELSE /\ IF pending /\ Swallows
                                       THEN /\ pending' = FALSE
                                            /\ pc' = [pc EXCEPT !["T"] = "t_loop"]
                                            /\ UNCHANGED << buf, realOut, sched, 
@@ -233,7 +265,7 @@ t_loop == /\ pc["T"] = "t_loop"
                                       ELSE /\ IF steps >= MaxSteps
                                                  THEN /\ IF Kind = "finisher"
                                                             THEN /\ pc' = [pc EXCEPT !["T"] = "t_done"]
-                                                            ELSE /\ IF Kind = "swallower"
+                                                            ELSE /\ IF Swallows
                                                                        THEN /\ pc' = [pc EXCEPT !["T"] = "t_immortal"]
                                                                        ELSE /\ pending
                                                                             /\ pc' = [pc EXCEPT !["T"] = "t_loop"]
@@ -242,7 +274,7 @@ t_loop == /\ pc["T"] = "t_loop"
                                                                       sched, 
                                                                       steps >>
                                                  ELSE /\ steps' = steps + 1
-                                                      /\ IF Kind \in {"printer", "swallower", "finisher"}
+                                                      /\ IF Kind \in {"printer", "swallower", "finisher", "catcher"}
                                                             THEN /\ IF pOut = "real"
                                                                        THEN /\ realOut' = Append(realOut, "s")
                                                                             /\ buf' = buf
@@ -255,56 +287,64 @@ t_loop == /\ pc["T"] = "t_loop"
                                                                                  sched >>
                                                       /\ pc' = [pc EXCEPT !["T"] = "t_loop"]
                                            /\ UNCHANGED pending
-          /\ UNCHANGED << patches, stdouts, pOut, raw, exc, fbs, tState, 
-                          tOutcome, mDone, crashed, excAtReturn, timedOut, tmp, 
-                          mtmp >>
+          /\ UNCHANGED << patches, stdouts, pOut, raw, exc, fbs, tState, cur, 
+                          xcell, released, nOutcome, excNext, mDone, crashed, 
+                          excAtReturn, timedOut, tmp, mtmp >>
 
 t_blocked == /\ pc["T"] = "t_blocked"
              /\ tState' = "blocked"
              /\ pc' = [pc EXCEPT !["T"] = "t_b2"]
              /\ UNCHANGED << patches, stdouts, pOut, buf, realOut, raw, exc, 
-                             fbs, pending, tOutcome, mDone, crashed, 
-                             excAtReturn, timedOut, sched, steps, tmp, mtmp >>
+                             fbs, pending, cur, xcell, released, nOutcome, 
+                             excNext, mDone, crashed, excAtReturn, timedOut, 
+                             sched, steps, tmp, mtmp >>
 
 t_b2 == /\ pc["T"] = "t_b2"
-        /\ FALSE
-        /\ pc' = [pc EXCEPT !["T"] = "t_immortal"]
+        /\ released /\ pending
+        /\ pending' = FALSE
+        /\ tState' = "running"
+        /\ pc' = [pc EXCEPT !["T"] = "t_exit"]
         /\ UNCHANGED << patches, stdouts, pOut, buf, realOut, raw, exc, fbs, 
-                        pending, tState, tOutcome, mDone, crashed, excAtReturn, 
-                        timedOut, sched, steps, tmp, mtmp >>
+                        cur, xcell, released, nOutcome, excNext, mDone, 
+                        crashed, excAtReturn, timedOut, sched, steps, tmp, 
+                        mtmp >>
 
 t_immortal == /\ pc["T"] = "t_immortal"
               /\ tState' = "immortal"
               /\ pc' = [pc EXCEPT !["T"] = "t_i2"]
               /\ UNCHANGED << patches, stdouts, pOut, buf, realOut, raw, exc, 
-                              fbs, pending, tOutcome, mDone, crashed, 
-                              excAtReturn, timedOut, sched, steps, tmp, mtmp >>
+                              fbs, pending, cur, xcell, released, nOutcome, 
+                              excNext, mDone, crashed, excAtReturn, timedOut, 
+                              sched, steps, tmp, mtmp >>
 
 t_i2 == /\ pc["T"] = "t_i2"
         /\ FALSE
         /\ pc' = [pc EXCEPT !["T"] = "t_exit"]
         /\ UNCHANGED << patches, stdouts, pOut, buf, realOut, raw, exc, fbs, 
-                        pending, tState, tOutcome, mDone, crashed, excAtReturn, 
-                        timedOut, sched, steps, tmp, mtmp >>
+                        pending, tState, cur, xcell, released, nOutcome, 
+                        excNext, mDone, crashed, excAtReturn, timedOut, sched, 
+                        steps, tmp, mtmp >>
 
 t_exit == /\ pc["T"] = "t_exit"
           /\ sched' = Append(sched, "T:exit")
           /\ IF Design = "grader_bookkeeping"
-                THEN /\ tOutcome' = "sysexit"
+                THEN /\ xcell' = [xcell EXCEPT ![MySlot] = "sysexit"]
                      /\ pc' = [pc EXCEPT !["T"] = "t_dead"]
                 ELSE /\ pc' = [pc EXCEPT !["T"] = "th_check"]
-                     /\ UNCHANGED tOutcome
+                     /\ xcell' = xcell
           /\ UNCHANGED << patches, stdouts, pOut, buf, realOut, raw, exc, fbs, 
-                          pending, tState, mDone, crashed, excAtReturn, 
-                          timedOut, steps, tmp, mtmp >>
+                          pending, tState, cur, released, nOutcome, excNext, 
+                          mDone, crashed, excAtReturn, timedOut, steps, tmp, 
+                          mtmp >>
 
 th_check == /\ pc["T"] = "th_check"
             /\ IF patches = <<>>
                   THEN /\ pc' = [pc EXCEPT !["T"] = "th_popOut"]
                   ELSE /\ pc' = [pc EXCEPT !["T"] = "th_pop"]
             /\ UNCHANGED << patches, stdouts, pOut, buf, realOut, raw, exc, 
-                            fbs, pending, tState, tOutcome, mDone, crashed, 
-                            excAtReturn, timedOut, sched, steps, tmp, mtmp >>
+                            fbs, pending, tState, cur, xcell, released, 
+                            nOutcome, excNext, mDone, crashed, excAtReturn, 
+                            timedOut, sched, steps, tmp, mtmp >>
 
 th_pop == /\ pc["T"] = "th_pop"
           /\ IF patches = <<>>
@@ -316,15 +356,16 @@ th_pop == /\ pc["T"] = "th_pop"
                      /\ pc' = [pc EXCEPT !["T"] = "th_stop"]
                      /\ UNCHANGED crashed
           /\ UNCHANGED << stdouts, pOut, buf, realOut, raw, exc, fbs, pending, 
-                          tState, tOutcome, mDone, excAtReturn, timedOut, 
-                          sched, steps, mtmp >>
+                          tState, cur, xcell, released, nOutcome, excNext, 
+                          mDone, excAtReturn, timedOut, sched, steps, mtmp >>
 
 th_stop == /\ pc["T"] = "th_stop"
            /\ pOut' = tmp
            /\ pc' = [pc EXCEPT !["T"] = "th_popOut"]
            /\ UNCHANGED << patches, stdouts, buf, realOut, raw, exc, fbs, 
-                           pending, tState, tOutcome, mDone, crashed, 
-                           excAtReturn, timedOut, sched, steps, tmp, mtmp >>
+                           pending, tState, cur, xcell, released, nOutcome, 
+                           excNext, mDone, crashed, excAtReturn, timedOut, 
+                           sched, steps, tmp, mtmp >>
 
 th_popOut == /\ pc["T"] = "th_popOut"
              /\ IF stdouts = <<>>
@@ -336,32 +377,34 @@ th_popOut == /\ pc["T"] = "th_popOut"
                         /\ pc' = [pc EXCEPT !["T"] = "th_excW"]
                         /\ UNCHANGED crashed
              /\ UNCHANGED << patches, pOut, buf, realOut, exc, fbs, pending, 
-                             tState, tOutcome, mDone, excAtReturn, timedOut, 
-                             sched, steps, tmp, mtmp >>
+                             tState, cur, xcell, released, nOutcome, excNext, 
+                             mDone, excAtReturn, timedOut, sched, steps, tmp, 
+                             mtmp >>
 
 th_excW == /\ pc["T"] = "th_excW"
            /\ exc' = "sysexit"
            /\ pc' = [pc EXCEPT !["T"] = "th_build"]
            /\ UNCHANGED << patches, stdouts, pOut, buf, realOut, raw, fbs, 
-                           pending, tState, tOutcome, mDone, crashed, 
-                           excAtReturn, timedOut, sched, steps, tmp, mtmp >>
+                           pending, tState, cur, xcell, released, nOutcome, 
+                           excNext, mDone, crashed, excAtReturn, timedOut, 
+                           sched, steps, tmp, mtmp >>
 
 th_build == /\ pc["T"] = "th_build"
             /\ fbs' = Append(fbs, exc)
             /\ pc' = [pc EXCEPT !["T"] = "t_dead"]
             /\ UNCHANGED << patches, stdouts, pOut, buf, realOut, raw, exc, 
-                            pending, tState, tOutcome, mDone, crashed, 
-                            excAtReturn, timedOut, sched, steps, tmp, mtmp >>
+                            pending, tState, cur, xcell, released, nOutcome, 
+                            excNext, mDone, crashed, excAtReturn, timedOut, 
+                            sched, steps, tmp, mtmp >>
 
 t_done == /\ pc["T"] = "t_done"
           /\ IF Design = "grader_bookkeeping"
-                THEN /\ tOutcome' = "normal"
-                     /\ pc' = [pc EXCEPT !["T"] = "t_dead"]
+                THEN /\ pc' = [pc EXCEPT !["T"] = "t_dead"]
                 ELSE /\ pc' = [pc EXCEPT !["T"] = "te_check"]
-                     /\ UNCHANGED tOutcome
           /\ UNCHANGED << patches, stdouts, pOut, buf, realOut, raw, exc, fbs, 
-                          pending, tState, mDone, crashed, excAtReturn, 
-                          timedOut, sched, steps, tmp, mtmp >>
+                          pending, tState, cur, xcell, released, nOutcome, 
+                          excNext, mDone, crashed, excAtReturn, timedOut, 
+                          sched, steps, tmp, mtmp >>
 
 te_check == /\ pc["T"] = "te_check"
             /\ IF pending
@@ -370,8 +413,9 @@ te_check == /\ pc["T"] = "te_check"
                              THEN /\ pc' = [pc EXCEPT !["T"] = "te_popOut"]
                              ELSE /\ pc' = [pc EXCEPT !["T"] = "te_pop"]
             /\ UNCHANGED << patches, stdouts, pOut, buf, realOut, raw, exc, 
-                            fbs, pending, tState, tOutcome, mDone, crashed, 
-                            excAtReturn, timedOut, sched, steps, tmp, mtmp >>
+                            fbs, pending, tState, cur, xcell, released, 
+                            nOutcome, excNext, mDone, crashed, excAtReturn, 
+                            timedOut, sched, steps, tmp, mtmp >>
 
 te_pop == /\ pc["T"] = "te_pop"
           /\ IF pending
@@ -386,8 +430,8 @@ te_pop == /\ pc["T"] = "te_pop"
                                 /\ pc' = [pc EXCEPT !["T"] = "te_stop"]
                                 /\ UNCHANGED crashed
           /\ UNCHANGED << stdouts, pOut, buf, realOut, raw, exc, fbs, pending, 
-                          tState, tOutcome, mDone, excAtReturn, timedOut, 
-                          sched, steps, mtmp >>
+                          tState, cur, xcell, released, nOutcome, excNext, 
+                          mDone, excAtReturn, timedOut, sched, steps, mtmp >>
 
 te_stop == /\ pc["T"] = "te_stop"
            /\ IF pending
@@ -396,8 +440,9 @@ te_stop == /\ pc["T"] = "te_stop"
                  ELSE /\ pOut' = tmp
                       /\ pc' = [pc EXCEPT !["T"] = "te_popOut"]
            /\ UNCHANGED << patches, stdouts, buf, realOut, raw, exc, fbs, 
-                           pending, tState, tOutcome, mDone, crashed, 
-                           excAtReturn, timedOut, sched, steps, tmp, mtmp >>
+                           pending, tState, cur, xcell, released, nOutcome, 
+                           excNext, mDone, crashed, excAtReturn, timedOut, 
+                           sched, steps, tmp, mtmp >>
 
 te_popOut == /\ pc["T"] = "te_popOut"
              /\ IF pending
@@ -412,15 +457,17 @@ te_popOut == /\ pc["T"] = "te_popOut"
                                    /\ pc' = [pc EXCEPT !["T"] = "t_dead"]
                                    /\ UNCHANGED crashed
              /\ UNCHANGED << patches, pOut, buf, realOut, exc, fbs, pending, 
-                             tState, tOutcome, mDone, excAtReturn, timedOut, 
-                             sched, steps, tmp, mtmp >>
+                             tState, cur, xcell, released, nOutcome, excNext, 
+                             mDone, excAtReturn, timedOut, sched, steps, tmp, 
+                             mtmp >>
 
 t_dead == /\ pc["T"] = "t_dead"
           /\ tState' = "dead"
           /\ pc' = [pc EXCEPT !["T"] = "Done"]
           /\ UNCHANGED << patches, stdouts, pOut, buf, realOut, raw, exc, fbs, 
-                          pending, tOutcome, mDone, crashed, excAtReturn, 
-                          timedOut, sched, steps, tmp, mtmp >>
+                          pending, cur, xcell, released, nOutcome, excNext, 
+                          mDone, crashed, excAtReturn, timedOut, sched, steps, 
+                          tmp, mtmp >>
 
 T == t_wait \/ t_begin \/ t_mock1 \/ t_mock2 \/ t_loop \/ t_blocked \/ t_b2
         \/ t_immortal \/ t_i2 \/ t_exit \/ th_check \/ th_pop \/ th_stop
@@ -434,24 +481,26 @@ m_begin == /\ pc["M"] = "m_begin"
                  ELSE /\ pc' = [pc EXCEPT !["M"] = "m_join"]
                       /\ exc' = exc
            /\ UNCHANGED << patches, stdouts, pOut, buf, realOut, raw, fbs, 
-                           pending, tState, tOutcome, mDone, crashed, 
-                           excAtReturn, timedOut, sched, steps, tmp, mtmp >>
+                           pending, tState, cur, xcell, released, nOutcome, 
+                           excNext, mDone, crashed, excAtReturn, timedOut, 
+                           sched, steps, tmp, mtmp >>
 
 m_mock1 == /\ pc["M"] = "m_mock1"
            /\ stdouts' = <<"b1">> \o stdouts
            /\ pc' = [pc EXCEPT !["M"] = "m_mock2"]
            /\ UNCHANGED << patches, pOut, buf, realOut, raw, exc, fbs, pending, 
-                           tState, tOutcome, mDone, crashed, excAtReturn, 
-                           timedOut, sched, steps, tmp, mtmp >>
+                           tState, cur, xcell, released, nOutcome, excNext, 
+                           mDone, crashed, excAtReturn, timedOut, sched, steps, 
+                           tmp, mtmp >>
 
 m_mock2 == /\ pc["M"] = "m_mock2"
            /\ patches' = <<pOut>> \o patches
            /\ pOut' = "b1"
            /\ tState' = "running"
            /\ pc' = [pc EXCEPT !["M"] = "m_join"]
-           /\ UNCHANGED << stdouts, buf, realOut, raw, exc, fbs, pending, 
-                           tOutcome, mDone, crashed, excAtReturn, timedOut, 
-                           sched, steps, tmp, mtmp >>
+           /\ UNCHANGED << stdouts, buf, realOut, raw, exc, fbs, pending, cur, 
+                           xcell, released, nOutcome, excNext, mDone, crashed, 
+                           excAtReturn, timedOut, sched, steps, tmp, mtmp >>
 
 m_join == /\ pc["M"] = "m_join"
           /\ tState # "new"
@@ -462,8 +511,9 @@ m_join == /\ pc["M"] = "m_join"
                 /\ timedOut' = TRUE
                 /\ pc' = [pc EXCEPT !["M"] = "m_term"]
           /\ UNCHANGED << patches, stdouts, pOut, buf, realOut, raw, exc, fbs, 
-                          pending, tState, tOutcome, mDone, crashed, 
-                          excAtReturn, sched, steps, tmp, mtmp >>
+                          pending, tState, cur, xcell, released, nOutcome, 
+                          excNext, mDone, crashed, excAtReturn, sched, steps, 
+                          tmp, mtmp >>
 
 m_term == /\ pc["M"] = "m_term"
           /\ IF tState # "dead"
@@ -473,23 +523,26 @@ m_term == /\ pc["M"] = "m_term"
           /\ sched' = Append(sched, "M:terminated")
           /\ pc' = [pc EXCEPT !["M"] = "mh_entry"]
           /\ UNCHANGED << patches, stdouts, pOut, buf, realOut, raw, exc, fbs, 
-                          tState, tOutcome, mDone, crashed, excAtReturn, 
-                          timedOut, steps, tmp, mtmp >>
+                          tState, cur, xcell, released, nOutcome, excNext, 
+                          mDone, crashed, excAtReturn, timedOut, steps, tmp, 
+                          mtmp >>
 
 mh_entry == /\ pc["M"] = "mh_entry"
             /\ sched' = Append(sched, "M:handler")
             /\ pc' = [pc EXCEPT !["M"] = "mh_check"]
             /\ UNCHANGED << patches, stdouts, pOut, buf, realOut, raw, exc, 
-                            fbs, pending, tState, tOutcome, mDone, crashed, 
-                            excAtReturn, timedOut, steps, tmp, mtmp >>
+                            fbs, pending, tState, cur, xcell, released, 
+                            nOutcome, excNext, mDone, crashed, excAtReturn, 
+                            timedOut, steps, tmp, mtmp >>
 
 mh_check == /\ pc["M"] = "mh_check"
             /\ IF patches = <<>>
                   THEN /\ pc' = [pc EXCEPT !["M"] = "mh_popOut"]
                   ELSE /\ pc' = [pc EXCEPT !["M"] = "mh_pop"]
             /\ UNCHANGED << patches, stdouts, pOut, buf, realOut, raw, exc, 
-                            fbs, pending, tState, tOutcome, mDone, crashed, 
-                            excAtReturn, timedOut, sched, steps, tmp, mtmp >>
+                            fbs, pending, tState, cur, xcell, released, 
+                            nOutcome, excNext, mDone, crashed, excAtReturn, 
+                            timedOut, sched, steps, tmp, mtmp >>
 
 mh_pop == /\ pc["M"] = "mh_pop"
           /\ IF patches = <<>>
@@ -501,16 +554,17 @@ mh_pop == /\ pc["M"] = "mh_pop"
                      /\ pc' = [pc EXCEPT !["M"] = "mh_stop"]
                      /\ UNCHANGED crashed
           /\ UNCHANGED << stdouts, pOut, buf, realOut, raw, exc, fbs, pending, 
-                          tState, tOutcome, mDone, excAtReturn, timedOut, 
-                          sched, steps, tmp >>
+                          tState, cur, xcell, released, nOutcome, excNext, 
+                          mDone, excAtReturn, timedOut, sched, steps, tmp >>
 
 mh_stop == /\ pc["M"] = "mh_stop"
            /\ pOut' = mtmp
            /\ sched' = Append(sched, "M:unpatched")
            /\ pc' = [pc EXCEPT !["M"] = "mh_popOut"]
            /\ UNCHANGED << patches, stdouts, buf, realOut, raw, exc, fbs, 
-                           pending, tState, tOutcome, mDone, crashed, 
-                           excAtReturn, timedOut, steps, tmp, mtmp >>
+                           pending, tState, cur, xcell, released, nOutcome, 
+                           excNext, mDone, crashed, excAtReturn, timedOut, 
+                           steps, tmp, mtmp >>
 
 mh_popOut == /\ pc["M"] = "mh_popOut"
              /\ IF Design = "grader_bookkeeping"
@@ -525,83 +579,98 @@ mh_popOut == /\ pc["M"] = "mh_popOut"
                    ELSE /\ pc' = [pc EXCEPT !["M"] = "mh_excW"]
                         /\ UNCHANGED << stdouts, raw, crashed >>
              /\ UNCHANGED << patches, pOut, buf, realOut, exc, fbs, pending, 
-                             tState, tOutcome, mDone, excAtReturn, timedOut, 
-                             sched, steps, tmp, mtmp >>
+                             tState, cur, xcell, released, nOutcome, excNext, 
+                             mDone, excAtReturn, timedOut, sched, steps, tmp, 
+                             mtmp >>
 
 mh_excW == /\ pc["M"] = "mh_excW"
            /\ exc' = "timeout"
            /\ pc' = [pc EXCEPT !["M"] = "mh_build"]
            /\ UNCHANGED << patches, stdouts, pOut, buf, realOut, raw, fbs, 
-                           pending, tState, tOutcome, mDone, crashed, 
-                           excAtReturn, timedOut, sched, steps, tmp, mtmp >>
+                           pending, tState, cur, xcell, released, nOutcome, 
+                           excNext, mDone, crashed, excAtReturn, timedOut, 
+                           sched, steps, tmp, mtmp >>
 
 mh_build == /\ pc["M"] = "mh_build"
             /\ fbs' = Append(fbs, exc)
             /\ pc' = [pc EXCEPT !["M"] = "m_ret"]
             /\ UNCHANGED << patches, stdouts, pOut, buf, realOut, raw, exc, 
-                            pending, tState, tOutcome, mDone, crashed, 
-                            excAtReturn, timedOut, sched, steps, tmp, mtmp >>
+                            pending, tState, cur, xcell, released, nOutcome, 
+                            excNext, mDone, crashed, excAtReturn, timedOut, 
+                            sched, steps, tmp, mtmp >>
 
 m_finished == /\ pc["M"] = "m_finished"
               /\ IF Design = "grader_bookkeeping"
                     THEN /\ pc' = [pc EXCEPT !["M"] = "mf_pop"]
                     ELSE /\ pc' = [pc EXCEPT !["M"] = "m_ret"]
               /\ UNCHANGED << patches, stdouts, pOut, buf, realOut, raw, exc, 
-                              fbs, pending, tState, tOutcome, mDone, crashed, 
-                              excAtReturn, timedOut, sched, steps, tmp, mtmp >>
+                              fbs, pending, tState, cur, xcell, released, 
+                              nOutcome, excNext, mDone, crashed, excAtReturn, 
+                              timedOut, sched, steps, tmp, mtmp >>
 
 mf_pop == /\ pc["M"] = "mf_pop"
           /\ mtmp' = Head(patches)
           /\ patches' = Tail(patches)
           /\ pc' = [pc EXCEPT !["M"] = "mf_stop"]
           /\ UNCHANGED << stdouts, pOut, buf, realOut, raw, exc, fbs, pending, 
-                          tState, tOutcome, mDone, crashed, excAtReturn, 
-                          timedOut, sched, steps, tmp >>
+                          tState, cur, xcell, released, nOutcome, excNext, 
+                          mDone, crashed, excAtReturn, timedOut, sched, steps, 
+                          tmp >>
 
 mf_stop == /\ pc["M"] = "mf_stop"
            /\ pOut' = mtmp
            /\ pc' = [pc EXCEPT !["M"] = "mf_popOut"]
            /\ UNCHANGED << patches, stdouts, buf, realOut, raw, exc, fbs, 
-                           pending, tState, tOutcome, mDone, crashed, 
-                           excAtReturn, timedOut, sched, steps, tmp, mtmp >>
+                           pending, tState, cur, xcell, released, nOutcome, 
+                           excNext, mDone, crashed, excAtReturn, timedOut, 
+                           sched, steps, tmp, mtmp >>
 
 mf_popOut == /\ pc["M"] = "mf_popOut"
              /\ raw' = Append(raw, <<Head(stdouts), buf[Head(stdouts)]>>)
              /\ stdouts' = Tail(stdouts)
              /\ pc' = [pc EXCEPT !["M"] = "m_ret"]
              /\ UNCHANGED << patches, pOut, buf, realOut, exc, fbs, pending, 
-                             tState, tOutcome, mDone, crashed, excAtReturn, 
-                             timedOut, sched, steps, tmp, mtmp >>
+                             tState, cur, xcell, released, nOutcome, excNext, 
+                             mDone, crashed, excAtReturn, timedOut, sched, 
+                             steps, tmp, mtmp >>
 
 m_ret == /\ pc["M"] = "m_ret"
          /\ excAtReturn' = exc
          /\ sched' = Append(sched, "M:returned")
          /\ pc' = [pc EXCEPT !["M"] = "n_begin"]
          /\ UNCHANGED << patches, stdouts, pOut, buf, realOut, raw, exc, fbs, 
-                         pending, tState, tOutcome, mDone, crashed, timedOut, 
-                         steps, tmp, mtmp >>
+                         pending, tState, cur, xcell, released, nOutcome, 
+                         excNext, mDone, crashed, timedOut, steps, tmp, mtmp >>
 
 n_begin == /\ pc["M"] = "n_begin"
            /\ exc' = "none"
+           /\ cur' = "r2"
+           /\ IF NextRun = "threaded" /\ Handback = "shared_field"
+                 THEN /\ xcell' = [xcell EXCEPT !["r2"] = "none"]
+                 ELSE /\ TRUE
+                      /\ xcell' = xcell
            /\ pc' = [pc EXCEPT !["M"] = "n_mock1"]
            /\ UNCHANGED << patches, stdouts, pOut, buf, realOut, raw, fbs, 
-                           pending, tState, tOutcome, mDone, crashed, 
-                           excAtReturn, timedOut, sched, steps, tmp, mtmp >>
+                           pending, tState, released, nOutcome, excNext, mDone, 
+                           crashed, excAtReturn, timedOut, sched, steps, tmp, 
+                           mtmp >>
 
 n_mock1 == /\ pc["M"] = "n_mock1"
            /\ stdouts' = <<"b2">> \o stdouts
            /\ pc' = [pc EXCEPT !["M"] = "n_mock2"]
            /\ UNCHANGED << patches, pOut, buf, realOut, raw, exc, fbs, pending, 
-                           tState, tOutcome, mDone, crashed, excAtReturn, 
-                           timedOut, sched, steps, tmp, mtmp >>
+                           tState, cur, xcell, released, nOutcome, excNext, 
+                           mDone, crashed, excAtReturn, timedOut, sched, steps, 
+                           tmp, mtmp >>
 
 n_mock2 == /\ pc["M"] = "n_mock2"
            /\ patches' = <<pOut>> \o patches
            /\ pOut' = "b2"
            /\ pc' = [pc EXCEPT !["M"] = "n_print"]
            /\ UNCHANGED << stdouts, buf, realOut, raw, exc, fbs, pending, 
-                           tState, tOutcome, mDone, crashed, excAtReturn, 
-                           timedOut, sched, steps, tmp, mtmp >>
+                           tState, cur, xcell, released, nOutcome, excNext, 
+                           mDone, crashed, excAtReturn, timedOut, sched, steps, 
+                           tmp, mtmp >>
 
 n_print == /\ pc["M"] = "n_print"
            /\ IF pOut = "real"
@@ -610,18 +679,34 @@ n_print == /\ pc["M"] = "n_print"
                  ELSE /\ buf' = [buf EXCEPT ![pOut] = Append(buf[pOut], "n")]
                       /\ UNCHANGED realOut
            /\ sched' = Append(sched, "M:nextprint")
-           /\ pc' = [pc EXCEPT !["M"] = "n_check"]
+           /\ IF NextRun = "threaded" /\ Kind = "blocked"
+                 THEN /\ released' = TRUE
+                 ELSE /\ TRUE
+                      /\ UNCHANGED released
+           /\ pc' = [pc EXCEPT !["M"] = "n_join"]
            /\ UNCHANGED << patches, stdouts, pOut, raw, exc, fbs, pending, 
-                           tState, tOutcome, mDone, crashed, excAtReturn, 
-                           timedOut, steps, tmp, mtmp >>
+                           tState, cur, xcell, nOutcome, excNext, mDone, 
+                           crashed, excAtReturn, timedOut, steps, tmp, mtmp >>
+
+n_join == /\ pc["M"] = "n_join"
+          /\ IF NextRun = "threaded" /\ xcell["r2"] # "none"
+                THEN /\ nOutcome' = xcell["r2"]
+                ELSE /\ TRUE
+                     /\ UNCHANGED nOutcome
+          /\ pc' = [pc EXCEPT !["M"] = "n_check"]
+          /\ UNCHANGED << patches, stdouts, pOut, buf, realOut, raw, exc, fbs, 
+                          pending, tState, cur, xcell, released, excNext, 
+                          mDone, crashed, excAtReturn, timedOut, sched, steps, 
+                          tmp, mtmp >>
 
 n_check == /\ pc["M"] = "n_check"
            /\ IF patches = <<>>
                  THEN /\ pc' = [pc EXCEPT !["M"] = "n_popOut"]
                  ELSE /\ pc' = [pc EXCEPT !["M"] = "n_pop"]
            /\ UNCHANGED << patches, stdouts, pOut, buf, realOut, raw, exc, fbs, 
-                           pending, tState, tOutcome, mDone, crashed, 
-                           excAtReturn, timedOut, sched, steps, tmp, mtmp >>
+                           pending, tState, cur, xcell, released, nOutcome, 
+                           excNext, mDone, crashed, excAtReturn, timedOut, 
+                           sched, steps, tmp, mtmp >>
 
 n_pop == /\ pc["M"] = "n_pop"
          /\ IF patches = <<>>
@@ -633,15 +718,16 @@ n_pop == /\ pc["M"] = "n_pop"
                     /\ pc' = [pc EXCEPT !["M"] = "n_stop"]
                     /\ UNCHANGED crashed
          /\ UNCHANGED << stdouts, pOut, buf, realOut, raw, exc, fbs, pending, 
-                         tState, tOutcome, mDone, excAtReturn, timedOut, sched, 
-                         steps, tmp >>
+                         tState, cur, xcell, released, nOutcome, excNext, 
+                         mDone, excAtReturn, timedOut, sched, steps, tmp >>
 
 n_stop == /\ pc["M"] = "n_stop"
           /\ pOut' = mtmp
           /\ pc' = [pc EXCEPT !["M"] = "n_popOut"]
           /\ UNCHANGED << patches, stdouts, buf, realOut, raw, exc, fbs, 
-                          pending, tState, tOutcome, mDone, crashed, 
-                          excAtReturn, timedOut, sched, steps, tmp, mtmp >>
+                          pending, tState, cur, xcell, released, nOutcome, 
+                          excNext, mDone, crashed, excAtReturn, timedOut, 
+                          sched, steps, tmp, mtmp >>
 
 n_popOut == /\ pc["M"] = "n_popOut"
             /\ IF stdouts = <<>>
@@ -650,23 +736,38 @@ n_popOut == /\ pc["M"] = "n_popOut"
                   ELSE /\ raw' = Append(raw, <<Head(stdouts), buf[Head(stdouts)]>>)
                        /\ stdouts' = Tail(stdouts)
                        /\ UNCHANGED crashed
-            /\ pc' = [pc EXCEPT !["M"] = "n_done"]
+            /\ pc' = [pc EXCEPT !["M"] = "n_record"]
             /\ UNCHANGED << patches, pOut, buf, realOut, exc, fbs, pending, 
-                            tState, tOutcome, mDone, excAtReturn, timedOut, 
-                            sched, steps, tmp, mtmp >>
+                            tState, cur, xcell, released, nOutcome, excNext, 
+                            mDone, excAtReturn, timedOut, sched, steps, tmp, 
+                            mtmp >>
+
+n_record == /\ pc["M"] = "n_record"
+            /\ IF nOutcome # "none"
+                  THEN /\ exc' = nOutcome
+                       /\ fbs' = Append(fbs, nOutcome)
+                  ELSE /\ TRUE
+                       /\ UNCHANGED << exc, fbs >>
+            /\ pc' = [pc EXCEPT !["M"] = "n_done"]
+            /\ UNCHANGED << patches, stdouts, pOut, buf, realOut, raw, pending, 
+                            tState, cur, xcell, released, nOutcome, excNext, 
+                            mDone, crashed, excAtReturn, timedOut, sched, 
+                            steps, tmp, mtmp >>
 
 n_done == /\ pc["M"] = "n_done"
+          /\ excNext' = exc
           /\ mDone' = TRUE
           /\ pc' = [pc EXCEPT !["M"] = "Done"]
           /\ UNCHANGED << patches, stdouts, pOut, buf, realOut, raw, exc, fbs, 
-                          pending, tState, tOutcome, crashed, excAtReturn, 
-                          timedOut, sched, steps, tmp, mtmp >>
+                          pending, tState, cur, xcell, released, nOutcome, 
+                          crashed, excAtReturn, timedOut, sched, steps, tmp, 
+                          mtmp >>
 
 M == m_begin \/ m_mock1 \/ m_mock2 \/ m_join \/ m_term \/ mh_entry
         \/ mh_check \/ mh_pop \/ mh_stop \/ mh_popOut \/ mh_excW
         \/ mh_build \/ m_finished \/ mf_pop \/ mf_stop \/ mf_popOut
-        \/ m_ret \/ n_begin \/ n_mock1 \/ n_mock2 \/ n_print \/ n_check
-        \/ n_pop \/ n_stop \/ n_popOut \/ n_done
+        \/ m_ret \/ n_begin \/ n_mock1 \/ n_mock2 \/ n_print \/ n_join
+        \/ n_check \/ n_pop \/ n_stop \/ n_popOut \/ n_record \/ n_done
 
 (* Allow infinite stuttering to prevent deadlock on termination. *)
 Terminating == /\ \A self \in ProcSet: pc[self] = "Done"
@@ -687,6 +788,7 @@ OneRuntimeFb  == (Quiet /\ timedOut) => fbs = <<"timeout">>
 StacksEmpty   == Quiet => patches = <<>> /\ stdouts = <<>> /\ pOut = "real"
 NoCrash       == crashed = {}
 NextRunClean  == Quiet => \E i \in 1..Len(raw) : raw[i] = <<"b2", <<"n">>>>
+NextExcNone   == Quiet => excNext = "none"     \* the later execution reports no exception of its own
 NoRealLeak    == Quiet => realOut = <<>>       \* informational: not part of property C14
 FirstShare == IF \E i \in 1..Len(raw) : raw[i][1] = "b1"
               THEN raw[CHOOSE i \in 1..Len(raw) : raw[i][1] = "b1"][2] ELSE <<>>
